@@ -181,8 +181,11 @@ pub fn c11(cfg: &Cfg) -> i32 {
                 }
             } else {
                 // W5b: states where every turn-ender is withheld
-                match saturated_script(&mut rng) {
-                    Some((b, g, s, _)) => (b, g, 2 + rng.below(40) as u64, Policy::Script(s), 300),
+                // (and W5d take-back cyclers; half of them start at move 1-3, where the two colours' move counters run apart)
+                let sc = if i % 20 == 19 { takeback_script(&mut rng) } else { saturated_script(&mut rng) };
+                let mv = if rng.chance(1, 2) { 1 + rng.below(3) as u64 } else { 2 + rng.below(40) as u64 };
+                match sc {
+                    Some((b, g, s, _)) => (b, g, mv, Policy::Script(s), 300),
                     None => {
                         let (b, g, m) = gen::w3(&mut rng);
                         (b, g, m, Policy::Reverser, 300)
@@ -465,6 +468,25 @@ impl Monitor for C17Play {
                 if let Ok(hv) = scratch(&v, gold, step, status) {
                     if hv == h {
                         s.violate_game("C17", "reached_state_hash_equals_one_square_variant", t.rec, format!("after {} the engine's hash {:#018x} equals the from-scratch hash of the same state with {}={} (actual content {}) board={}", code_text(t.code), h, sq_text(sq), if c == 0 { '.' } else { cell_char(c) }, if b.0[sq] == 0 { '.' } else { cell_char(b.0[sq]) }, b.compact()));
+                    }
+                }
+            }
+        }
+        // one piece standing one square elsewhere (the hash of a sibling line handed over by mistake)
+        for i in 0..64usize {
+            if b.0[i] == 0 {
+                continue;
+            }
+            for k in 0..4u8 {
+                if let Some(j) = nb(i, k) {
+                    if b.0[j] == 0 {
+                        let mut v = b;
+                        v.0[j] = v.0[i];
+                        v.0[i] = 0;
+                        self.variants += 1;
+                        if scratch(&v, gold, step, status).ok() == Some(h) {
+                            s.violate_game("C17", "reached_state_hash_equals_relocated_piece", t.rec, format!("after {} the engine's hash {:#018x} equals the from-scratch hash of the same state with the piece on {} standing on {} instead; board={}", code_text(t.code), h, sq_text(i), sq_text(j), b.compact()));
+                        }
                     }
                 }
             }
